@@ -102,7 +102,7 @@ func jSkeleton() []byte {
 	case 0:
 		return vJoin(jGap("g0."), jScalar("v.", mp), jGap("g1."))
 	case 1:
-		return vJoin([]byte("{"), jGap("g0."), jString("k.", mp), jGap("g1."), []byte(":"), jScalar("v.", 1), []byte("}"))
+		return vJoin([]byte("{"), jGap("g0."), jString("k.", 1), jGap("g1."), []byte(":"), jScalar("v.", 1), []byte("}"))
 	case 2:
 		return vJoin([]byte("["), jScalar("v.", 1), []byte(","), jGapAfterComma("g0."), jString("w.", 1), []byte("]"))
 	case 3:
